@@ -2,7 +2,7 @@
 from props import schedcommon as sc
 
 PROPERTY = 'C03'
-THEOREMS = ['Sched.no_deadlock', 'Sched.clean_exit', 'Sched.raises_iff_cyclic', 'Sched.InvC_step', 'Sched.InvC_init', 'Sched.Inv_reach']
+THEOREMS = ['Sched.no_deadlock', 'Sched.clean_exit', 'Sched.raises_iff_cyclic', 'Sched.InvC_step', 'Sched.InvC_init', 'Sched.Inv_reach', 'Sched.bounded_executions', 'Sched.always_terminates', 'Sched.mu_decreases', 'Sched.InvG_step']
 BUDGET = {'quick': 250, 'thorough': 6000}
 TIME_LIMIT = {'quick': 55, 'thorough': 700}
 RULE = ('cyclic graphs, stale FAILED/SKIPPED/PENDING entries, repeated calls on the same backend' + '; the real QueueScheduling backend runs under the controlled scheduler; non-trivial = '
